@@ -4,6 +4,9 @@ import (
 	"fmt"
 	"go/ast"
 	"go/token"
+	"os"
+	"path/filepath"
+	"sort"
 	"strings"
 )
 
@@ -11,7 +14,7 @@ func init() { generators["dbperm"] = genDbPerm }
 
 // genDbPerm regenerates (C03):
 //   - the decision table of record.Meta.CheckPermission (database/record/meta.go),
-//   - the privileges of every database.NewInterface(...) call in api/database.go.
+//   - every constructor of a DatabaseAPI in package api with the privileges of the interface it opens.
 func genDbPerm() {
 	fset, f := parseFile("database/record/meta.go")
 	fd := findFunc(f, "CheckPermission", "Meta")
@@ -145,55 +148,146 @@ func genDbPerm() {
 		die("NewInterface: `if opts == nil { opts = &Options{} }` not found")
 	}
 
-	// every NewInterface call of the database API
-	fset2, fa := parseFile("api/database.go")
-	var calls []string
-	ast.Inspect(fa, func(n ast.Node) bool {
-		c, ok := n.(*ast.CallExpr)
-		if !ok || exprString(fset2, c.Fun) != "database.NewInterface" {
-			return true
-		}
-		if len(c.Args) != 1 {
-			die("api: NewInterface call shape")
-		}
-		loc, in := "false", "false"
-		switch a := c.Args[0].(type) {
-		case *ast.Ident:
-			if a.Name != "nil" {
-				die("api: NewInterface(%s): cannot evaluate", a.Name)
-			}
-		case *ast.UnaryExpr:
-			cl, ok := a.X.(*ast.CompositeLit)
-			if !ok || a.Op != token.AND || exprString(fset2, cl.Type) != "database.Options" {
-				die("api: NewInterface(%s): cannot evaluate", exprString(fset2, a))
-			}
-			for _, el := range cl.Elts {
-				kv, ok := el.(*ast.KeyValueExpr)
-				if !ok {
-					die("api: unkeyed Options literal")
-				}
-				v := exprString(fset2, kv.Value)
-				switch exprString(fset2, kv.Key) {
-				case "Local":
-					loc = v
-				case "Internal":
-					in = v
-				}
-				if v != "true" && v != "false" && (exprString(fset2, kv.Key) == "Local" || exprString(fset2, kv.Key) == "Internal") {
-					die("api: Options.%s = %s is not a literal", exprString(fset2, kv.Key), v)
-				}
-			}
-		default:
-			die("api: NewInterface(%s): cannot evaluate", exprString(fset2, c.Args[0]))
-		}
-		calls = append(calls, fmt.Sprintf("(%s, %s)", loc, in))
-		return true
-	})
-	if len(calls) == 0 {
-		die("api: no database.NewInterface call found")
+	// every constructor of a DatabaseAPI in package api (all non-test files, verif-tagged ones included): a
+	// composite literal of type DatabaseAPI whose `db` field is a database.NewInterface(...) call with literal
+	// options. Fails closed on: a NewInterface call anywhere else in the package, a DatabaseAPI literal without
+	// `db`, an assignment to a `.db` field, and a constructor the C03 harness has no driver for.
+	drivers := map[string]string{
+		"CreateDatabaseAPI":         "messages handed to DatabaseAPI.Handle, replies through the send function",
+		"startDatabaseWebsocketAPI": "a real websocket connection to the HTTP handler (api.VerifDatabaseWebsocketHandler)",
 	}
-	sb.WriteString("/-- (Local, Internal) of every `database.NewInterface(...)` in api/database.go. -/\n")
+	ents, err := os.ReadDir(filepath.Join(repo, "api"))
+	if err != nil {
+		die("api: %v", err)
+	}
+	type ctor struct{ fn, loc, in string }
+	var ctors []ctor
+	for _, ent := range ents {
+		name := ent.Name()
+		if ent.IsDir() || !strings.HasSuffix(name, ".go") || strings.HasSuffix(name, "_test.go") {
+			continue
+		}
+		fset2, fa := parseFile("api/" + name)
+		options := func(arg ast.Expr) (loc, in string) {
+			loc, in = "false", "false"
+			switch a := arg.(type) {
+			case *ast.Ident:
+				if a.Name != "nil" {
+					die("api/%s: NewInterface(%s): cannot evaluate", name, a.Name)
+				}
+			case *ast.UnaryExpr:
+				cl, ok := a.X.(*ast.CompositeLit)
+				if !ok || a.Op != token.AND || exprString(fset2, cl.Type) != "database.Options" {
+					die("api/%s: NewInterface(%s): cannot evaluate", name, exprString(fset2, a))
+				}
+				for _, el := range cl.Elts {
+					kv, ok := el.(*ast.KeyValueExpr)
+					if !ok {
+						die("api/%s: unkeyed Options literal", name)
+					}
+					v := exprString(fset2, kv.Value)
+					switch exprString(fset2, kv.Key) {
+					case "Local":
+						loc = v
+					case "Internal":
+						in = v
+					}
+					if v != "true" && v != "false" && (exprString(fset2, kv.Key) == "Local" || exprString(fset2, kv.Key) == "Internal") {
+						die("api/%s: Options.%s = %s is not a literal", name, exprString(fset2, kv.Key), v)
+					}
+				}
+			default:
+				die("api/%s: NewInterface(%s): cannot evaluate", name, exprString(fset2, arg))
+			}
+			return loc, in
+		}
+		for _, d := range fa.Decls {
+			fd, isFunc := d.(*ast.FuncDecl)
+			fn := "(package level)"
+			if isFunc {
+				fn = fd.Name.Name
+			}
+			inLiteral := map[*ast.CallExpr]bool{}
+			ast.Inspect(d, func(n ast.Node) bool {
+				switch x := n.(type) {
+				case *ast.CompositeLit:
+					if x.Type == nil || exprString(fset2, x.Type) != "DatabaseAPI" {
+						return true
+					}
+					var dbVal ast.Expr
+					for _, el := range x.Elts {
+						kv, ok := el.(*ast.KeyValueExpr)
+						if !ok {
+							die("api/%s: %s: unkeyed DatabaseAPI literal", name, fn)
+						}
+						if exprString(fset2, kv.Key) == "db" {
+							dbVal = kv.Value
+						}
+					}
+					if dbVal == nil {
+						die("api/%s: %s builds a DatabaseAPI without a `db` field: its interface comes from somewhere the extractor does not see", name, fn)
+					}
+					c, ok := dbVal.(*ast.CallExpr)
+					if !ok || exprString(fset2, c.Fun) != "database.NewInterface" || len(c.Args) != 1 {
+						die("api/%s: %s: DatabaseAPI.db = %s is not a database.NewInterface(...) call", name, fn, exprString(fset2, dbVal))
+					}
+					inLiteral[c] = true
+					loc, in := options(c.Args[0])
+					if !isFunc {
+						die("api/%s: DatabaseAPI built at package level", name)
+					}
+					ctors = append(ctors, ctor{fn, loc, in})
+				case *ast.AssignStmt:
+					for _, l := range x.Lhs {
+						if se, ok := l.(*ast.SelectorExpr); ok && se.Sel.Name == "db" {
+							die("api/%s: %s assigns to %s: the interface of a DatabaseAPI is replaced after construction", name, fn, exprString(fset2, l))
+						}
+					}
+				}
+				return true
+			})
+			ast.Inspect(d, func(n ast.Node) bool {
+				c, ok := n.(*ast.CallExpr)
+				if ok && exprString(fset2, c.Fun) == "database.NewInterface" && !inLiteral[c] {
+					die("api/%s: %s calls database.NewInterface outside a DatabaseAPI literal", name, fn)
+				}
+				return true
+			})
+		}
+	}
+	if len(ctors) == 0 {
+		die("api: no constructor of a DatabaseAPI found")
+	}
+	sort.Slice(ctors, func(a, b int) bool { return ctors[a].fn < ctors[b].fn })
+	seen := map[string]bool{}
+	var calls, named []string
+	for _, c := range ctors {
+		if drivers[c.fn] == "" {
+			die("api: %s constructs a DatabaseAPI, but the C03 harness has no driver for it (it drives: %s)", c.fn, strings.Join(sortedKeys(drivers), ", "))
+		}
+		if seen[c.fn] {
+			die("api: %s constructs more than one DatabaseAPI", c.fn)
+		}
+		seen[c.fn] = true
+		calls = append(calls, fmt.Sprintf("(%s, %s)", c.loc, c.in))
+		named = append(named, fmt.Sprintf("(%q, %s, %s)", c.fn, c.loc, c.in))
+	}
+	for fn := range drivers {
+		if !seen[fn] {
+			die("api: constructor %s, which the C03 harness drives, no longer builds a DatabaseAPI", fn)
+		}
+	}
+	sb.WriteString("/-- (Local, Internal) of every `database.NewInterface(...)` in package api. -/\n")
 	fmt.Fprintf(&sb, "def apiInterfaces : List (Bool × Bool) := [%s]\n\n", strings.Join(calls, ", "))
+	sb.WriteString("/-- Every function of package api that constructs a `DatabaseAPI`, with the (Local, Internal) of the interface it\n")
+	sb.WriteString("    gives it. The C03 harness drives each of them: " + strings.Join(func() []string {
+		var l []string
+		for _, k := range sortedKeys(drivers) {
+			l = append(l, k+" — "+drivers[k])
+		}
+		return l
+	}(), "; ") + ". -/\n")
+	fmt.Fprintf(&sb, "def apiConstructors : List (String × Bool × Bool) := [%s]\n\n", strings.Join(named, ", "))
 	sb.WriteString("end PB.Gen.DbPerm\n")
 	write("DbPerm.lean", sb.String())
 }
